@@ -32,6 +32,12 @@ def run(ctx):
     ctx.run_rule("D2", r_dispatch.rule_D2, cfgs)
     ctx.run_rule("D2x", r_xof.rule_D2x, cfgs)
     ctx.run_rule("K3M1", r_consts.rule_K3_M1, cfgs)
+    # the subtree split and the hash_many flag discipline must not depend on the SIMD degree of the configuration
+    import r_globals
+    import r_flags
+    ctx.run_rule("W1", r_globals.rule_W1, cfgs)
+    ctx.run_rule("G3", r_globals.rule_G3, cfgs)
+    ctx.run_rule("Fh", r_flags.rule_F_hash_many, cfgs)
     facts = {c: ctx.facts(c) for c in cfgs}
     ctx.run_rule("D3", lambda c: r_dispatch.rule_D3(c, facts))
     import r_round
